@@ -24,6 +24,8 @@ def log(*a):
 def build_harness():
     t0 = time.time()
     env = dict(os.environ, CARGO_NET_OFFLINE="true")
+    env.pop("CARGO_TARGET_DIR", None)          # the harness always builds into .build/target (harness/.cargo/config.toml)
+    env.pop("RUSTFLAGS", None)
     lock = os.path.join(ROOT, "harness", "Cargo.lock")
     if not os.path.exists(lock):
         shutil.copy(os.path.join(REPO, "Cargo.lock"), lock)
@@ -39,6 +41,7 @@ def build_cli():
     """the unhooked `asca` binary, built from /repo's working tree into /verif/.build/cli"""
     t0 = time.time()
     env = dict(os.environ, CARGO_NET_OFFLINE="true")
+    env.pop("CARGO_TARGET_DIR", None)
     p = subprocess.run(["cargo", "build", "--release", "--offline", "--manifest-path", os.path.join(REPO, "Cargo.toml"), "--bin", "asca",
                         "--target-dir", os.path.join(BUILD, "cli")], env=env, stdout=subprocess.PIPE, stderr=subprocess.STDOUT, text=True)
     if p.returncode != 0:
